@@ -875,6 +875,13 @@ class Gen:
                 p["note"] = r.choice(STR)
         elif cls == "LInner":
             p["tag"] = r.choice(self.cfg["strs"])
+            free_ids = [i for i in ("", "0", "n1", "x y") if i not in self.__dict__.setdefault("used_ids", set())]
+            if free_ids and r.random() < 0.08:
+                # ids are arbitrary user strings: an explicit one (each at most once per run), the empty string included
+                self.used_ids.add(free_ids[0])
+                explicit_id = free_ids[0]
+            else:
+                explicit_id = None
             if r.random() < 0.6:
                 ch["one"] = self.spec(depth - 1, used=used)
             ch["items"] = [self.spec(depth - 1, used=used) for _ in range(r.choice([0, 0, 1, 2, 3]))]
@@ -888,7 +895,10 @@ class Gen:
         else:
             p["tag"] = r.choice(self.cfg["strs"])
             ch["req"] = self.spec(depth - 1, used=used)
-        return {"c": cls, "p": p, "ch": ch, "o": r.choice(self.cfg["origins"])}
+        out = {"c": cls, "p": p, "ch": ch, "o": r.choice(self.cfg["origins"])}
+        if cls == "LInner" and explicit_id is not None:
+            out["id"] = explicit_id
+        return out
 
     def pick_ref(self, pred=None, root_bias: float = 0.5) -> dict[str, Any] | None:  # noqa: ANN001
         r = self.r("pick")
@@ -1160,6 +1170,37 @@ class Gen:
         if r.random() < 0.3:
             spec["ch"]["one"] = kids.pop(0) if len(kids) > 1 and k != 0 else self.fresh_children(1)[0]
         return {"act": "new", "spec": spec, "bad": f"ctor_parent_collision", "k": k, "n": n}
+
+    def rj_ctor_nested_collision_clean_sibling(self) -> dict[str, Any] | None:
+        """A new node over DETACHED holders: one of them holds (below a detached node visited first) a node that is
+        attached elsewhere, and clean detached holders come after / before it -- the collision sits at a grandchild
+        and is not the last thing the dry run looks at."""
+        r = self.r("rj16")
+        bad = self.attached_subtree_ref()
+        if bad is None:
+            return None
+        o = r.choice(self.cfg["origins"])
+
+        def leaf(tag: str) -> dict[str, Any]:
+            return {"c": "LLeaf", "p": {"v": tag}, "ch": {}, "o": o, "create_detached": True}
+
+        def holder(tag: str, kids: list[dict[str, Any]]) -> dict[str, Any]:
+            return {"c": "LInner", "p": {"tag": tag}, "ch": {r.choice(["items", "lst"]): kids}, "o": o, "create_detached": True}
+
+        inner = [leaf("g"), {"ref": bad}]
+        if r.random() < 0.3:
+            inner.append(leaf("h"))
+        holders = [holder("E", inner)] + [holder(f"F{i}", [leaf(f"f{i}")] if r.random() < 0.8 else []) for i in range(r.choice([1, 1, 2]))]
+        if r.random() < 0.3:
+            r.shuffle(holders)
+        top = {"c": "LInner", "p": {"tag": "D"}, "ch": {"items": holders}, "o": o}
+        if r.random() < 0.7:
+            return {"act": "new", "spec": top, "bad": "ctor_nested_collision_clean_sibling"}
+        ref = self.pick_ref(lambda x: not x.detached and (x.parent is None or x.parent_field.name != "only_leaf"), root_bias=0.5)
+        if ref is None or any(x is self.w.node_at(bad) for x in walk(self.w.node_at(ref))):
+            return None
+        top["create_detached"] = True
+        return {"act": "replace_with", "n": ref, "new": top, "bad": "replace_with_nested_collision_clean_sibling"}
 
     def rj_ctor_duplicate_children(self) -> dict[str, Any] | None:
         r = self.r("rj2")
@@ -1443,6 +1484,7 @@ def spec_of(o: Any) -> dict[str, Any]:
 
 REJECT_KINDS = [
     "transform_rule_uses_library",
+    "ctor_nested_collision_clean_sibling",
     "ctor_parent_collision",
     "ctor_parent_collision",
     "ctor_duplicate_children",
